@@ -15,7 +15,13 @@ import os
 import time
 
 import lib
-from lib import cZ, chex, clist, cnat
+from lib import chex, clist, cnat
+
+
+def cZ(n):
+    """hexadecimal literals: Coq parses them much faster than long decimal ones"""
+    return f'(-0x{-n:x})%Z' if n < 0 else f'(0x{n:x})%Z'
+
 
 PROP = 'C20'
 IMPORTS = 'From PV Require Import Michelson.Tickets.'
